@@ -14,7 +14,7 @@ def fb(fr="RF", fe=None, h=()): return dict(k="fb", fr=fr, fe=leaf(fe) if fe els
 def bh(id, max=1, wait=0): return dict(k="bh", id=id, max=max, wait=wait)
 def rl(id, ival=3, wait=0): return dict(k="rl", id=id, ival=ival, wait=wait)
 BR1 = dict(fthr=1, fcap=1, frate=0, fexec=0, period=0, sthr=0, scap=0, delay=1000)
-def cb(id, cfg=BR1, h=()): return dict(k="cb", id=id, cfg=cfg, h=list(h))
+def cb(id, cfg=BR1, h=(), dfn=-1): return dict(k="cb", id=id, cfg=cfg, h=list(h), dfn=dfn)
 
 def fn(d=0, r="R1", e=None, coop=False): return dict(d=d, r=r, e=leaf(e) if e else NIL, coop=coop)
 def start(x, at=0, asyn=False, dl=-1, ck="none"): return dict(at=at, what="Start", x=x, **{"async": asyn}, id="", gap=0, dl=dl, ck=ck)
@@ -53,7 +53,14 @@ def run_and_validate(ctx, binary, name, scenarios, timeout=1800, env_extra=None,
     problems = [x for x in recs if x.get("k") == "problem"]
     ctx.evaluations += summ["events"]
     res = dict(n=summ["n"], events=summ["events"], problems=problems, sample=summ.get("sample"))
-    nlines = sum(1 for _ in open(outp))
+    nlines = 0
+    # which visible steps of the model the real traces exercised (vacuity check: a label that never occurs was never bound)
+    hist = ctx.extra.setdefault("trace_events_seen", {})
+    for line in open(outp):
+        nlines += 1
+        m = re.search(r'"ev": ?"([^"]+)"', line)
+        if m:
+            hist[m.group(1)] = hist.get(m.group(1), 0) + 1
     if nlines == 0:
         return True, res
     tla = "---- MODULE MC ----\nEXTENDS FailsafeTTrace\n====\n"
